@@ -1,6 +1,7 @@
 package main
 
 import (
+	"fmt"
 	"go/token"
 	"strings"
 
@@ -247,6 +248,105 @@ func propC11(c *Check) {
 			}
 		})
 		c.Require(!rev, "shape", shortName(f)+"|forward scan", "custodian records are scanned in increasing timestamp order (the last one not after ts wins)", "Reverse set")
+	}
+	// ---- CNode records are immutable after construction: every store to a field of a
+	// *kernel.CNode in the whole module targets an object allocated by the storing function
+	// (a copy or a fresh literal). A view that wrote into the shared records of
+	// node.nodeStateSequences would make later answers depend on which views ran before.
+	{
+		builders := map[string]string{
+			"(*kernel.Node).nodeSequenceWithoutState": "assigns ConsensusIndex to the elements of the list it has just built from fresh &CNode{} literals",
+		}
+		n, bad := 0, []string{}
+		var sites []string
+		for _, fn := range w.ModuleFuncs() {
+			eachInstr(fn, func(b *ssa.BasicBlock, ins ssa.Instruction) {
+				st, ok := ins.(*ssa.Store)
+				if !ok {
+					return
+				}
+				fa, ok := st.Addr.(*ssa.FieldAddr)
+				if !ok || typeShort(fa.X.Type()) != "*kernel.CNode" {
+					return
+				}
+				n++
+				c.Sites++
+				r, p := accessPath(st.Addr)
+				_, isAlloc := r.(*ssa.Alloc)
+				local := isAlloc && len(p) == 1
+				if isAlloc && len(p) == 1 {
+					// the allocation itself is the CNode (copy or literal), not a variable holding a shared pointer
+					local = typeShort(r.Type()) == "*kernel.CNode"
+				}
+				if local {
+					sites = append(sites, instrPos(w, ins))
+					return
+				}
+				if _, okb := builders[shortName(fn)]; okb && isAlloc {
+					sites = append(sites, instrPos(w, ins))
+					return
+				}
+				bad = append(bad, shortName(fn)+" writes "+strings.Join(p, ".")+" of a CNode it did not allocate at "+instrPos(w, ins))
+			})
+		}
+		c.Require(n >= 10 && len(bad) == 0, "ownership", "kernel.CNode|fields written only on objects allocated by the writer",
+			"every store to a CNode field targets a CNode allocated in the same function (copy / literal); the one builder exception is tabled with its reason",
+			strings.Join(bad, "; ")+" (stores examined: "+itoa(n)+")", sites...)
+	}
+	// ---- custodian history is append-only in time: writeCustodianNodes reaches the record write
+	// only when there is no previous record or the previous record is strictly older. Decided by
+	// interpreting the guard fragment over every ordering of (prev.Timestamp, snapTime) and every
+	// equality outcome of the custodian comparison.
+	if f := c.F("storage.writeCustodianNodes"); f != nil {
+		prev := Extract(0, Call("storage.readCustodianAccount"))
+		now := Extract(0, Call("common.ParseCustodianUpdateNodesExtra"))
+		prevNil := BinEither(token.EQL, prev, ConstNil)
+		starts := findIfs(f, prevNil)
+		sets := findCalls(f, "(*github.com/dgraph-io/badger/v4.Txn).Set")
+		if len(starts) != 1 || len(sets) != 1 {
+			c.Undecided("anchor", shortName(f)+"|prev == nil test / single Set", "one `prev == nil` test and one record write", "found "+itoa(len(starts))+" / "+itoa(len(sets)))
+		} else {
+			setB := sets[0].(ssa.Instruction).Block()
+			leaves := []leaf{
+				{prevNil, "b:prevNil"},
+				{Path(prev, "Timestamp"), "prevTs"},
+				{Param("snapTime"), "snapTime"},
+				{Call("(common.Address).String", Has(Path(now, "Custodian"))), "nowCust"},
+				{Call("(common.Address).String", Has(Path(prev, "Custodian"))), "prevCust"},
+			}
+			stop := func(b *ssa.BasicBlock) bool { return b == setB }
+			total, writes := 0, 0
+			bad, evalErr := "", ""
+			for pn := int64(0); pn <= 1 && evalErr == ""; pn++ {
+				for pt := int64(0); pt <= 2; pt++ {
+					for nc := int64(0); nc <= 1; nc++ {
+						for pc := int64(0); pc <= 1; pc++ {
+							env := map[string]int64{"b:prevNil": pn, "prevTs": pt, "snapTime": 1, "nowCust": nc, "prevCust": pc}
+							tb, err := runFragment(starts[0].Block(), leaves, env, stop)
+							if err != nil {
+								evalErr = err.Error()
+								break
+							}
+							total++
+							if tb == setB {
+								writes++
+								if pn == 0 && pt >= 1 && bad == "" {
+									bad = fmt.Sprintf("prev != nil, prev.Timestamp=%d, snapTime=1, same custodian=%v reaches the record write", pt, nc == pc)
+								}
+							}
+						}
+					}
+				}
+			}
+			c.Sites += total
+			if evalErr != "" {
+				c.Undecided("finite-eval", shortName(f)+"|write only after strictly older history", "the guard fragment is interpretable", evalErr, c.W.Pos(f.Pos()))
+			} else {
+				c.Require(bad == "" && writes > 0, "finite-eval", shortName(f)+"|write only after strictly older history",
+					"over all orderings of prev.Timestamp vs snapTime and custodian (in)equality, the record for snapTime is written only when prev == nil or prev.Timestamp < snapTime (an existing record at that timestamp is never replaced, so answers already given stay valid)",
+					bad+fmt.Sprintf(" (%d valuations, %d reach the write)", total, writes), instrPos(w, sets[0]))
+			}
+		}
 	}
 	if f := c.F("storage.parseCustodianUpdateItem"); f != nil {
 		n := 0
